@@ -1,7 +1,7 @@
 (** Pinned statements of the C08 property theorems: compiled on every check, so a theorem cannot be
     weakened silently. *)
 From V Require Import Base.Util Gql.Ast Peg.Peg Gen.C07_grammar_gen C07.Builder C07.Model.
-From V Require Import C08.Model C08.Spec C08.SiteType Gen.C08_sites_gen C08.Sites C08.ProofsRender C08.ProofsEscape C08.Shape C08.ProofsShape C08.ProofsMerge C08.ImportsCost C08.Proofs C08.Properties.
+From V Require Import C08.Model C08.Spec C08.SiteType Gen.C08_sites_gen C08.Sites C08.ProofsRender C08.ProofsEscape C08.Shape C08.ProofsShape C08.ProofsMerge C08.ImportsCost C08.ProofsVisitor C08.Proofs C08.Properties.
 From V Require C07.Fuel C11.Properties C12.Properties C13.Properties.
 Local Open Scope N_scope.
 
@@ -39,7 +39,14 @@ Check (C08_emit_total_partial : forall defs o,
 Check (C08_merge_unchecked_refuted :
   check_then_tree w_merge_schema w_merge_fields = Some ([], Some (C01.Model.Err C01.Model.EMergeFields)) /\
   check_then_tree w_merge_schema w_merge_trees = Some ([], Some (C01.Model.Err C01.Model.EMergeTrees))).
+Check (C08_visitor_fragments_defined : forall S D,
+  C03.Spec.schema_wf S = true -> C03.Model.check_operation_document S D = [] ->
+  frags_closed (C01.Model.frag_defs D) = true /\
+  (forall o, In o (C03.Spec.doc_ops D) -> spreads_ok (C01.Model.frag_defs D) (selset_sels (op_sel o)) = true) /\
+  (forall sels, spreads_ok (C01.Model.frag_defs D) sels = true ->
+     forall fuel st, C01.Model.visit_vars fuel (C01.Model.frag_defs D) sels st <> C01.Model.Err C01.Model.ETypeSystem)).
 
+Print Assumptions C08_visitor_fragments_defined.
 Print Assumptions C08_render_total.
 Print Assumptions C08_skip_chars_total.
 Print Assumptions C08_render_index_refuted.
